@@ -25,7 +25,9 @@ RULE = ('one run = one seeded FileStorage history (commits, aborts at every '
         'evaluation = one crash image reopened and compared with the model '
         'prefix; non-trivial = the cut lies after the first commit began; '
         'distinct = hash of the data-file bytes of the crash image before '
-        'recovery')
+        'recovery; for a seeded subset of the images that recovery had to '
+        'repair, the recovery\'s own operations are cut again (a second '
+        'crash while reopening) and judged by the same oracle')
 BUDGET = {'quick': {'runs': 4000, 'wall': 300, 'chunk': 10},
           'thorough': {'runs': 30000, 'wall': 3000, 'chunk': 10}}
 ASSUMPTIONS = [
@@ -63,6 +65,7 @@ def gen(seed, tier):
         'ops': ops,
         'tier': tier,
         'deep_every': r.choice((7, 13, 29)),
+        'nest_every': r.choice((3, 5)) if tier == 'quick' else 1,
     }
 
 
@@ -128,13 +131,57 @@ class Recovery:
             m = self.prefix_models[p] = Log(self.model.txns[:p])
         return m
 
-    def check(self, img, k, torn, deep, where):
+    def check(self, img, k, torn, deep, where, nested=False):
         from ZODB.FileStorage import FileStorage
         self.evals += 1
         rsim = self.rsim
         rsim.fs = img
         img.sim = rsim
         ctx.activate(rsim)
+        snap = None
+        if deep and not nested:
+            # crash during recovery: the recovery's own low-level
+            # operations are logged and cut below
+            snap = img.snapshot()
+            del img.log[:]
+        try:
+            self.check1(img, k, torn, deep, where)
+        finally:
+            if snap is not None:
+                rlog = [op for op in img.log]
+                self.crash_in_recovery(snap, rlog, k, torn, where)
+
+    def crash_in_recovery(self, snap, rlog, k, torn, where):
+        """The machine stops again while the crash image is being
+        reopened (recovery truncating the tail, the fresh commit of the
+        deep check, the index being saved): the second recovery is judged
+        by the same oracle."""
+        data_ino = snap['files'].get(PATH)
+        muts = [i for i, op in enumerate(rlog)
+                if op[0] in ('write', 'truncate') and op[1] == data_ino]
+        if not muts or rlog[muts[0]][0] != 'truncate':
+            # the image needed no repair
+            return
+        # only up to the first mutation by the deep check's fresh commit:
+        # recovery itself truncates; everything after the first write is
+        # a new transaction the model does not know
+        first_write = next((i for i in muts if rlog[i][0] == 'write'),
+                           len(rlog))
+        self.bump('recoveries_that_mutated')
+        if self.stats['recoveries_that_mutated'] % self.case.get(
+                'nest_every', 4):
+            return
+        rep = simfs.Replayer(snap, rlog)
+        for j in range(1, min(first_write, len(rlog)) + 1):
+            rep.advance(j)
+            self.bump('crash_in_recovery_images')
+            self.check(rep.image(bufsize=self.case['bufsize']), k, torn,
+                       False, '%s, then crash in recovery after its op '
+                       '%d/%d' % (where, j, len(rlog)), nested=True)
+
+    def check1(self, img, k, torn, deep, where):
+        from ZODB.FileStorage import FileStorage
+        rsim = self.rsim
         acked, allowed = self.allowed(k, torn is not None)
         if self.marks and k > self.marks[0]['invoke'] - 3:
             # distinct crash images (data file bytes *before* recovery)
